@@ -141,11 +141,15 @@ Apply(n, p) ==
                    ELSE ""
        /\ UNCHANGED << ti, tab, ct, lf >>
 
-\* Free: every history; otherwise the third call repeats the first (A B A)
+\* Free: every history; otherwise the third call repeats the first (A B A).  Tier random
+\* (-simulate): the call is drawn here, so that one successor is computed per step
+SetPick(S) == SetToSeq(S)[RandomElement(1..Cardinality(S))]
 Next == /\ Len(hist) < MaxCalls
-        /\ \E n \in Targets(tab), p \in 1..NAP :
-              /\ IF Free \/ Len(hist) # 2 THEN TRUE ELSE [n |-> n, p |-> p] = hist[1]
-              /\ Apply(n, p)
+        /\ IF Tier = "random"
+           THEN Apply(SetPick(Targets(tab)), RandomElement(1..NAP))
+           ELSE \E n \in Targets(tab), p \in 1..NAP :
+                  /\ IF Free \/ Len(hist) # 2 THEN TRUE ELSE [n |-> n, p |-> p] = hist[1]
+                  /\ Apply(n, p)
 
 \* ------------------------------------------------------------------ the property on the design
 EveryCallIsTheMeaning == wrong # "stale-result"
